@@ -290,7 +290,11 @@ func (c *FailoverController) ForceFailover(reason string) error {
 	c.logger.Warn("Forcing failover",
 		zap.String("reason", reason),
 	)
-	return c.initiateFailover(reason)
+	if err := c.initiateFailover(reason); err != nil {
+		return err
+	}
+	c.executeFailover(reason)
+	return nil
 }
 
 // ForceFailback forces an immediate failback (for manual intervention).
@@ -407,6 +411,12 @@ func (c *FailoverController) initiateFailover(reason string) error {
 
 	if c.currentRole == RoleActive {
 		return fmt.Errorf("already active, cannot failover")
+	}
+	if c.state == FailoverStateInProgress {
+		return fmt.Errorf("failover already in progress")
+	}
+	if c.failoverTimer != nil {
+		c.failoverTimer.Stop()
 	}
 
 	c.state = FailoverStateInProgress
